@@ -194,6 +194,11 @@ pub fn replay(path: &str) -> i32 {
         let path: Vec<String> = r["path"].as_array().map(|a| a.iter().filter_map(|x| x.as_str().map(|s| s.to_string())).collect()).unwrap_or_default();
         return c07::replay(script, &path);
     }
+    if r["engine"] == "net" && (prop == "C04" || prop == "C14") {
+        let script = r["script"].as_str().unwrap_or("");
+        let path: Vec<String> = r["path"].as_array().map(|a| a.iter().filter_map(|x| x.as_str().map(|s| s.to_string())).collect()).unwrap_or_default();
+        return cluster::replay_script(script, &path);
+    }
     println!("engine {}: the recorded choice sequence / schedule / crash point is in the file; re-run `./check {} quick` to reproduce (searches are deterministic)", r["engine"], prop);
     println!("{}", serde_json::to_string_pretty(r).unwrap_or_default());
     0
